@@ -32,6 +32,15 @@ type parseModel struct {
 	cmpDetail     string
 	// the cursor automaton was decided and equals the specification's
 	autoOK bool
+	// it was tabulated at all; the ways in which it accepts less than the specification
+	autoDecided bool
+	autoUnder   []string
+}
+
+// acceptObl reports, under both owners, whether the parser accepts what the serializer writes.
+func acceptObl(add func(ok bool, rule, inst string, n ast.Node, detail string), n ast.Node, ok bool, detail string) {
+	add(ok, "R02.accept", "ParseVector.accepts", n, detail)
+	add(ok, "R08.accept", "ParseVector.accepts", n, detail)
 }
 
 func (p *Pkg) blockOf(g *cfg.CFG, n ast.Node) *cfg.Block {
@@ -206,6 +215,9 @@ func (w *World) rulesParsePkg(p *Pkg, out *[]Obligation) {
 	}
 	if m.objVar == nil || m.loop == nil || m.setCall == nil || m.splitAs == nil {
 		add(false, "R01.noskip", "ParseVector", fd, "ParseVector does not have the shape `obj := &T{}; loop { abv, v := split(element); obj.Set(abv, v) }`: undecided")
+		if ov.Order == "fixed" {
+			acceptObl(add, fd, false, "the parser is outside the analysed shape, so it is not established that it accepts every metric sequence Vector can write: undecided")
+		}
 		return
 	}
 
@@ -366,6 +378,15 @@ func (w *World) rulesParsePkg(p *Pkg, out *[]Obligation) {
 			}
 			add(ok, rule, inst, n, detail)
 		})
+		// acceptance of everything Vector writes (round trip, canonical form)
+		switch {
+		case !autoSeen || !m.autoDecided:
+			acceptObl(add, m.loop, false, "the cursor automaton could not be tabulated, so it is not established that the parser accepts every metric sequence Vector can write: undecided")
+		case len(m.autoUnder) > 0:
+			acceptObl(add, m.loop, false, "the parser rejects metric sequences the specification allows and Vector writes: "+strings.Join(m.autoUnder, "; "))
+		default:
+			acceptObl(add, m.loop, true, "the cursor automaton accepts every metric sequence of the specification's order language, hence every sequence Vector writes")
+		}
 		// R01.cmp is a path argument over the CFG; a path without the
 		// comparison may be infeasible (a flag-controlled search loop). The
 		// exact cursor automaton settles such cases.
